@@ -14,8 +14,15 @@
 package xstate
 
 import (
+	"bufio"
+	"bytes"
 	"crypto/sha256"
+	"encoding/binary"
+	"encoding/json"
 	"fmt"
+	"io"
+	"os"
+	"path/filepath"
 	"runtime"
 	"sort"
 	"sync"
@@ -66,8 +73,21 @@ type Config struct {
 	Workers    int  // parallel replays (0 = GOMAXPROCS); every replay runs wholly on one goroutine (inside wrap)
 	NoMerge    bool // do not merge states by canonical key (every history is its own state)
 	Shard      int
-	NShards    int  // >1: the events of the initial state are partitioned over shards (states reached by several shards are expanded by each)
+	NShards    int  // >1 without ExchangeDir: the events of the initial state are partitioned over shards (states reached by several shards are expanded by each)
 	StopAtViol bool // do not expand states reached through a violating transition
+
+	// ExchangeDir, with NShards > 1, turns the shards (separate processes started together,
+	// e.g. by vcheck "shards": n, all running the same sequence of Run calls) into one
+	// cooperative level-synchronous BFS: the (state, event) pairs of a depth are dealt
+	// round-robin to the shards, every shard writes the new canonical keys it reached to
+	// ExchangeDir, waits for the files of the others and merges them, so all shards hold
+	// the same frontier and no transition is executed twice. Stats are per shard and sum
+	// to the global figures (a new state is counted by the shard that executed its
+	// representative transition). E must round-trip through encoding/json.
+	// Useful when replays do not scale over the cores of one process (synctest bubbles
+	// hand control between goroutines constantly; with one P per process that is cheap).
+	ExchangeDir string
+	ExchangeTag string // distinguishes the Run calls of one process (same value in every shard)
 }
 
 // Stats of a finished search.
@@ -77,7 +97,7 @@ type Stats struct {
 	MaxDepth    int
 	Capped      string
 	Outcomes    map[string]struct{} // distinct observation strings of judged events
-	Levels      []int               // new states per depth (Levels[0] == 1)
+	Levels      []int               // new states per depth (Levels[0] == 1); global also in cooperative mode
 	Replays     int                 // replays executed (== Transitions + 1)
 	Events      int64               // events executed on the implementation, prefix events included
 }
@@ -103,7 +123,8 @@ type Options[E any] struct {
 	Transition func(hist []E, obs []string, key string, newState bool)
 	// Examples keeps the histories of the first N new states of every depth.
 	Examples int
-	// CollectKeys records every canonical key reached (also under NoMerge) with its minimal depth.
+	// CollectKeys records every canonical key reached (also under NoMerge) with its minimal depth
+	// (in cooperative mode: only the keys reached by this shard's transitions).
 	CollectKeys bool
 }
 
@@ -135,6 +156,17 @@ func hashKey(s string) hkey {
 	return k
 }
 
+// cand is the best transition seen so far that reaches a not yet seen key.
+type cand[E any] struct {
+	j      int // position of the (parent, event) pair in the depth's job list: the deterministic tie-break
+	ev     E   // the event of that transition
+	nev    int // size of the event menu of the reached state
+	events []E // the menu itself when known locally
+	obs    []string
+	key    string
+	mine   bool
+}
+
 // Run runs the BFS described by o.
 func Run[E any](o Options[E]) Result[E] {
 	cfg := o.Config
@@ -146,6 +178,7 @@ func Run[E any](o Options[E]) Result[E] {
 	if cfg.NShards <= 0 {
 		cfg.NShards = 1
 	}
+	coop := cfg.NShards > 1 && cfg.ExchangeDir != ""
 	workers := cfg.Workers
 	if workers <= 0 {
 		workers = runtime.GOMAXPROCS(0)
@@ -159,18 +192,12 @@ func Run[E any](o Options[E]) Result[E] {
 	}
 	type node struct {
 		hist   []E
-		events []E
-	}
-	// result of one transition that reached a so far unseen key
-	type cand struct {
-		ni, ei int
-		events []E
-		obs    []string
-		key    string
+		events []E // nil when only the size of the menu is known (state reached by another shard)
+		nev    int
 	}
 	type foundAt struct {
-		ni, ei int
-		f      Found[E]
+		j int
+		f Found[E]
 	}
 	seen := map[hkey]struct{}{}
 
@@ -181,6 +208,7 @@ func Run[E any](o Options[E]) Result[E] {
 		s := o.Build()
 		initKey = s.Canon()
 		root.events = s.Enabled()
+		root.nev = len(root.events)
 		s.Close()
 	})
 	st.Replays++
@@ -188,24 +216,26 @@ func Run[E any](o Options[E]) Result[E] {
 	if res.Keys != nil {
 		res.Keys[initKey] = 0
 	}
-	st.States = 1
+	if !coop || cfg.Shard == 0 {
+		st.States = 1
+	}
 	st.Levels = append(st.Levels, 1)
 	frontier := []node{root}
 
 	var mu sync.Mutex
 	for depth := 0; depth < cfg.MaxDepth && len(frontier) > 0; depth++ {
-		// flatten (node, event) pairs
+		// flatten (node, event) pairs; the list is the same in every shard
 		type job struct{ ni, ei int }
 		var jobs []job
 		for ni, n := range frontier {
-			for ei := range n.events {
-				if depth == 0 && cfg.NShards > 1 && ei%cfg.NShards != cfg.Shard {
+			for ei := 0; ei < n.nev; ei++ {
+				if !coop && depth == 0 && cfg.NShards > 1 && ei%cfg.NShards != cfg.Shard {
 					continue
 				}
 				jobs = append(jobs, job{ni, ei})
 			}
 		}
-		cands := map[hkey]*cand{}
+		cands := map[hkey]*cand[E]{}
 		var founds []foundAt
 		var next atomic.Int64
 		var capped atomic.Value
@@ -220,19 +250,23 @@ func Run[E any](o Options[E]) Result[E] {
 					if j >= len(jobs) {
 						return
 					}
+					if coop && j%cfg.NShards != cfg.Shard {
+						continue
+					}
 					if capped.Load() != nil {
 						return
 					}
-					if j%64 == 0 && !cfg.Deadline.IsZero() && time.Now().After(cfg.Deadline) {
+					if (j/cfg.NShards)%64 == 0 && !cfg.Deadline.IsZero() && time.Now().After(cfg.Deadline) {
 						capped.Store(fmt.Sprintf("deadline at depth %d (%d of %d transitions of this depth done)", depth+1, j, len(jobs)))
 						return
 					}
 					n := frontier[jobs[j].ni]
-					ev := n.events[jobs[j].ei]
+					var ev E
 					var key string
 					obsAll := make([]string, 0, len(n.hist)+1)
 					var viol []Violation
 					var childEvents []E
+					childN := -1
 					run(func() {
 						s := o.Build()
 						rp, canReplay := s.(Replayer[E])
@@ -245,11 +279,24 @@ func Run[E any](o Options[E]) Result[E] {
 							}
 							obsAll = append(obsAll, ob)
 						}
+						menu := n.events
+						if menu == nil {
+							menu = s.Enabled()
+							if len(menu) != n.nev {
+								panic(fmt.Sprintf("xstate: event menu of a state differs between shards (%d vs %d events): Enabled is not a function of the history", len(menu), n.nev))
+							}
+						}
+						ev = menu[jobs[j].ei]
 						ob, v := s.Apply(ev)
 						obsAll = append(obsAll, ob)
 						viol = v
 						key = s.Canon()
-						childEvents = s.Enabled()
+						// seen is only written between depths, so it may be read here without the
+						// lock; the event menu is needed only if this may become a new state
+						if _, old := seen[hashKey(key)]; !old || cfg.NoMerge {
+							childEvents = s.Enabled()
+							childN = len(childEvents)
+						}
 						s.Close()
 					})
 					events.Add(int64(len(n.hist) + 1))
@@ -265,7 +312,7 @@ func Run[E any](o Options[E]) Result[E] {
 						st.MaxDepth = len(hist)
 					}
 					for _, v := range viol {
-						founds = append(founds, foundAt{jobs[j].ni, jobs[j].ei, Found[E]{Violation: v, History: hist, Obs: obsAll}})
+						founds = append(founds, foundAt{j, Found[E]{Violation: v, History: hist, Obs: obsAll}})
 					}
 					if res.Keys != nil {
 						if _, ok := res.Keys[key]; !ok {
@@ -274,7 +321,7 @@ func Run[E any](o Options[E]) Result[E] {
 					}
 					mkey := key
 					if cfg.NoMerge {
-						mkey = fmt.Sprintf("%d/%d/%d", depth, jobs[j].ni, jobs[j].ei)
+						mkey = fmt.Sprintf("%d/%d", depth, j)
 					}
 					hk := hashKey(mkey)
 					newState := false
@@ -282,9 +329,9 @@ func Run[E any](o Options[E]) Result[E] {
 						c := cands[hk]
 						if c == nil {
 							newState = true
-							cands[hk] = &cand{jobs[j].ni, jobs[j].ei, childEvents, obsAll, key}
-						} else if jobs[j].ni < c.ni || (jobs[j].ni == c.ni && jobs[j].ei < c.ei) {
-							*c = cand{jobs[j].ni, jobs[j].ei, childEvents, obsAll, key}
+							cands[hk] = &cand[E]{j: j, ev: ev, nev: childN, events: childEvents, obs: obsAll, key: key, mine: true}
+						} else if j < c.j {
+							*c = cand[E]{j: j, ev: ev, nev: childN, events: childEvents, obs: obsAll, key: key, mine: true}
 						}
 					}
 					if o.Transition != nil {
@@ -300,47 +347,152 @@ func Run[E any](o Options[E]) Result[E] {
 		wg.Wait()
 		st.Events += events.Load()
 
-		// deterministic delivery
-		sort.SliceStable(founds, func(a, b int) bool {
-			if founds[a].ni != founds[b].ni {
-				return founds[a].ni < founds[b].ni
-			}
-			return founds[a].ei < founds[b].ei
-		})
+		// deterministic delivery of this shard's violations
+		sort.SliceStable(founds, func(a, b int) bool { return founds[a].j < founds[b].j })
 		if o.Found != nil {
 			for _, f := range founds {
 				o.Found(f.f)
 			}
 		}
-		cl := make([]*cand, 0, len(cands))
+		cappedMsg := ""
+		if c := capped.Load(); c != nil {
+			cappedMsg = c.(string)
+		}
+		if coop {
+			peerCap, err := exchange(cfg, depth, cands, cappedMsg)
+			if err != nil {
+				cappedMsg = "shard exchange failed: " + err.Error()
+			} else if cappedMsg == "" && peerCap != "" {
+				cappedMsg = "peer shard: " + peerCap
+			}
+		}
+		cl := make([]*cand[E], 0, len(cands))
 		for hk, c := range cands {
 			seen[hk] = struct{}{}
 			cl = append(cl, c)
 		}
-		sort.Slice(cl, func(a, b int) bool {
-			if cl[a].ni != cl[b].ni {
-				return cl[a].ni < cl[b].ni
-			}
-			return cl[a].ei < cl[b].ei
-		})
+		sort.Slice(cl, func(a, b int) bool { return cl[a].j < cl[b].j })
 		nextFrontier := make([]node, 0, len(cl))
-		for i, c := range cl {
-			p := frontier[c.ni]
+		nex := 0
+		for _, c := range cl {
+			p := frontier[jobs[c.j].ni]
 			hist := make([]E, len(p.hist)+1)
 			copy(hist, p.hist)
-			hist[len(p.hist)] = p.events[c.ei]
-			nextFrontier = append(nextFrontier, node{hist: hist, events: c.events})
-			if i < o.Examples {
-				res.Examples = append(res.Examples, Example[E]{History: hist, Obs: c.obs, Key: c.key})
+			hist[len(p.hist)] = c.ev
+			nextFrontier = append(nextFrontier, node{hist: hist, events: c.events, nev: c.nev})
+			if c.mine {
+				st.States++
+				if nex < o.Examples {
+					res.Examples = append(res.Examples, Example[E]{History: hist, Obs: c.obs, Key: c.key})
+					nex++
+				}
 			}
 		}
-		st.States += len(cl)
 		st.Levels = append(st.Levels, len(cl))
-		if c := capped.Load(); c != nil {
-			st.Capped = c.(string)
+		if cappedMsg != "" {
+			st.Capped = cappedMsg
 			break
 		}
 		frontier = nextFrontier
 	}
 	return res
+}
+
+// exchange writes this shard's candidates of one depth, waits for the other shards'
+// files and merges them into cands (smallest job position wins).
+func exchange[E any](cfg Config, depth int, cands map[hkey]*cand[E], capped string) (peerCapped string, err error) {
+	name := func(shard int) string {
+		return filepath.Join(cfg.ExchangeDir, fmt.Sprintf("xstate-%s-d%d-s%d.bin", cfg.ExchangeTag, depth, shard))
+	}
+	// write
+	var buf bytes.Buffer
+	w := bufio.NewWriter(&buf)
+	hdr := []byte(capped)
+	binary.Write(w, binary.LittleEndian, uint32(len(hdr)))
+	w.Write(hdr)
+	binary.Write(w, binary.LittleEndian, uint32(len(cands)))
+	for hk, c := range cands {
+		ej, jerr := json.Marshal(c.ev)
+		if jerr != nil {
+			return "", jerr
+		}
+		w.Write(hk[:])
+		binary.Write(w, binary.LittleEndian, uint32(c.j))
+		binary.Write(w, binary.LittleEndian, int32(c.nev))
+		binary.Write(w, binary.LittleEndian, uint16(len(ej)))
+		w.Write(ej)
+	}
+	w.Flush()
+	tmp := name(cfg.Shard) + ".tmp"
+	if err := os.WriteFile(tmp, buf.Bytes(), 0o644); err != nil {
+		return "", err
+	}
+	if err := os.Rename(tmp, name(cfg.Shard)); err != nil {
+		return "", err
+	}
+	// read the others
+	grace := 120 * time.Second
+	for sh := 0; sh < cfg.NShards; sh++ {
+		if sh == cfg.Shard {
+			continue
+		}
+		var data []byte
+		start := time.Now()
+		for {
+			data, err = os.ReadFile(name(sh))
+			if err == nil {
+				break
+			}
+			limit := start.Add(grace)
+			if !cfg.Deadline.IsZero() && cfg.Deadline.Add(grace).After(limit) {
+				limit = cfg.Deadline.Add(grace)
+			}
+			if time.Now().After(limit) {
+				return "", fmt.Errorf("shard %d did not deliver depth %d", sh, depth)
+			}
+			time.Sleep(5 * time.Millisecond)
+		}
+		r := bytes.NewReader(data)
+		var n uint32
+		if err := binary.Read(r, binary.LittleEndian, &n); err != nil {
+			return "", err
+		}
+		h := make([]byte, n)
+		if _, err := io.ReadFull(r, h); err != nil {
+			return "", err
+		}
+		if len(h) > 0 && peerCapped == "" {
+			peerCapped = string(h)
+		}
+		if err := binary.Read(r, binary.LittleEndian, &n); err != nil {
+			return "", err
+		}
+		for i := uint32(0); i < n; i++ {
+			var hk hkey
+			var j uint32
+			var nev int32
+			var l uint16
+			if _, err := io.ReadFull(r, hk[:]); err != nil {
+				return "", err
+			}
+			binary.Read(r, binary.LittleEndian, &j)
+			binary.Read(r, binary.LittleEndian, &nev)
+			if err := binary.Read(r, binary.LittleEndian, &l); err != nil {
+				return "", err
+			}
+			ej := make([]byte, l)
+			if _, err := io.ReadFull(r, ej); err != nil {
+				return "", err
+			}
+			if c := cands[hk]; c != nil && c.j <= int(j) {
+				continue
+			}
+			var ev E
+			if err := json.Unmarshal(ej, &ev); err != nil {
+				return "", err
+			}
+			cands[hk] = &cand[E]{j: int(j), ev: ev, nev: int(nev)}
+		}
+	}
+	return peerCapped, nil
 }
